@@ -2,6 +2,8 @@
 Node semantics of the C++ integer expressions that `tools/gen_ops_ast.py` meets in the clang AST of
 NFLlib's scalar functors.  Hand-written, core Lean only.  This file (together with clang's AST) is the
 TRUSTED reading of the C++ text: `Generated/OpsAst.lean` applies exactly one of these helpers per AST node.
+`tools/gen_ntt_ast.py` (scalar NTT butterfly blocks, `Generated/NttAst.lean`) uses the same helpers plus the
+`short` / `long` section below.
 
 Representation
 * a value of an unsigned type of `k` bits (`k = 16, 32, 64, 128`) is a `Nat < 2^k`;
@@ -73,6 +75,47 @@ theorem bias_le_iff (a b : Nat) : bias a ≤ bias b ↔ sval a ≤ sval b := by
 /-- the residue map is the two's complement encoding -/
 theorem sval_castUS_of_lt (k a : Nat) (h : a < 2 ^ 31) : sval (castUS k a) = a := by
   unfold sval castUS; split <;> omega
+
+/-! ### signed types of `k` bits other than `int` (`short`, `long`): residues mod `2^k`
+
+Met by `tools/gen_ntt_ast.py` in the sign tests `(signed_value_type) v < 0` of the NTT butterflies.
+A value of a signed `k`-bit type is its residue mod `2^k` (`svalW k` is the inverse map), as for `int`.
+Unsigned → signed conversion of an out-of-range value is modular (implementation-defined before C++20,
+two's complement on every supported compiler; the only behaviour since C++20). -/
+
+/-- the signed value a `k`-bit residue stands for -/
+def svalW (k a : Nat) : Int :=
+  if a % 2 ^ k < 2 ^ (k - 1) then (a % 2 ^ k : Nat) else ((a % 2 ^ k : Nat) : Int) - 2 ^ k
+/-- unsigned (any width) → signed type of `k` bits: the value modulo `2^k` -/
+def castUSw (k a : Nat) : Nat := a % 2 ^ k
+/-- signed `j` bits → signed `k` bits: sign extension (`k > j`) or truncation -/
+def castSS (j k a : Nat) : Nat :=
+  if a % 2 ^ j < 2 ^ (j - 1) then (a % 2 ^ j) % 2 ^ k else (a % 2 ^ j + 2 ^ k * 2 ^ j - 2 ^ j) % 2 ^ k
+/-- order-preserving map of the signed `k`-bit values onto `[0, 2^k)` (flip the sign bit) -/
+def biasW (k a : Nat) : Nat := (a + 2 ^ (k - 1)) % 2 ^ k
+/-- comparisons in a signed type of `k` bits -/
+def geS (k a b : Nat) : Bool := decide (biasW k b ≤ biasW k a)
+def gtS (k a b : Nat) : Bool := decide (biasW k b < biasW k a)
+def leS (k a b : Nat) : Bool := decide (biasW k a ≤ biasW k b)
+def ltS (k a b : Nat) : Bool := decide (biasW k a < biasW k b)
+def eqS (k a b : Nat) : Bool := decide (a % 2 ^ k = b % 2 ^ k)
+def neS (k a b : Nat) : Bool := decide (a % 2 ^ k ≠ b % 2 ^ k)
+
+/-- `biasW` really is the signed order (sanity check of the comparison helpers), for the widths in use -/
+theorem biasW_lt_iff_16 (a b : Nat) : biasW 16 a < biasW 16 b ↔ svalW 16 a < svalW 16 b := by
+  unfold biasW svalW
+  split <;> split <;> omega
+theorem biasW_lt_iff_64 (a b : Nat) : biasW 64 a < biasW 64 b ↔ svalW 64 a < svalW 64 b := by
+  unfold biasW svalW
+  split <;> split <;> omega
+/-- `short → int` keeps the signed value -/
+theorem sval_castSS_16_32 (a : Nat) : sval (castSS 16 32 a) = svalW 16 a := by
+  unfold sval castSS svalW
+  split <;> split <;> omega
+/-- `int → long` keeps the signed value -/
+theorem svalW_castSS_32_64 (a : Nat) : svalW 64 (castSS 32 64 a) = sval a := by
+  unfold sval castSS svalW
+  split <;> split <;> omega
 
 /-! ### loops -/
 
